@@ -38,8 +38,8 @@ GOALS = {'quick': ['a chain of 3', 'two steps in one layer', 'nested', 'split',
 STUBS = ['flow steps computing v_j from what they read (set updater that logs '
          'applications); one of them (symbolic choice, or none) adds a child '
          'to a glob store in the same update, every phase', 'two legacy derivers (one listed under processes, one '
-         'under steps without a flow entry)', 'one process accumulating x with a '
-         'symbolic timestep and delta']
+         'under steps without a flow entry)', 'two processes accumulating x, each '
+         'with its own symbolic timestep']
 ASSUMPTIONS = ['the DAG dimension is boolean (edge flags decided by forking): '
                'every DAG on S labelled steps arises; schedule and data are '
                'symbolic integers']
@@ -194,7 +194,10 @@ def body(ctx, cfg):
     # legacy derivers: one under processes, one under steps without flow
     der_a = FS({'name': 'der_a', 'deps': [], 'c': 7})
     der_b = FS({'name': 'der_b', 'deps': ['der_a'], 'c': 0})
+    # a second process on its own timestep: batches at different times
+    ts2 = ctx.int('ts', 1, 3)
     merge(processes, nest({'p': Proc({'name': 'p', 'ts': ts, 'd': d}),
+                           'p2': Proc({'name': 'p2', 'ts': ts2, 'd': 1}),
                            'der_a': der_a}, base))
     merge(steps, nest({'der_b': der_b}, base))
     for n in ('p', 'der_a', 'der_b'):
@@ -203,6 +206,7 @@ def body(ctx, cfg):
     for seg in base:
         topology_p = topology_p[seg]
     topology_p['p'] = {'s': up + ('s',)}
+    topology_p['p2'] = {'s': up + ('s',)}
 
     def hook(data):
         LOG.append(('emit', data['table']))
